@@ -185,6 +185,15 @@ pub fn run(cfg: &Cfg, out: &mut Out) -> String {
                     let c = CompactLength::calc(p as usize as *const ());
                     out.count("calc");
                     out.qa(&format!("calc {p:016x}"), &format!("{} {:016x} {}", c.tag(), c.calc_value() as usize as u64, flags(c)));
+                    // "calc handles are told apart from every non-calc value": of the kind predicates only is_calc (and
+                    // uses_percentage, which includes calc by definition) may hold, and the handle reads back
+                    if flags(c) != "1000000000001" || c.calc_value() as usize as u64 != p {
+                        out.impl_violation(format!(
+                            "sig:c18-calc-confused calc handle {p:016x} reads back {:016x} with predicate flags {} (is_calc, is_zero, is_length_or_percentage, is_auto, is_min_content, is_max_content, is_fit_content, is_max_or_fit_content, is_max_content_alike, is_min_or_max_content, is_intrinsic, is_fr, uses_percentage)",
+                            c.calc_value() as usize as u64,
+                            flags(c)
+                        ));
+                    }
                     let dim = Dimension::calc(p as usize as *const ());
                     out.qa(&format!("resolve DIM calc {p:016x} {}", bo(ctx)), &format!("{} {}", bo(dim.maybe_resolve(ctx, calc_resolver)), b(dim.resolve_or_zero(ctx, calc_resolver))));
                 }
